@@ -242,11 +242,11 @@ type pfEngine struct {
 // functions without error result, on every return), over keys rooted at
 // parameter names; plus which results are non-nil then.
 type pfSummary struct {
-	facts        *pfState
-	resNonNil    map[int]bool
-	resMayBeNil  map[int]bool // result i can be nil together with a nil error
-	hasErr       bool
-	paramNames   []string
+	facts         *pfState
+	resNonNil     map[int]bool
+	resMayBeNil   map[int]bool // result i can be nil together with a nil error
+	hasErr        bool
+	paramNames    []string
 	unconditional bool
 }
 
